@@ -11,8 +11,11 @@ import BGV
 #print axioms BGV.C01_readd_noop
 #print axioms BGV.C01_remove_absent_noop
 #print axioms BGV.C01_resize_keeps
+#print axioms BGV.C01_adjacencyMatrix
+#print axioms BGV.C01_inDegree
 
 -- C02
+#print axioms BGV.C02_adjacencyMatrix
 #print axioms BGV.C02_inv_reachable
 #print axioms BGV.C02_refines
 #print axioms BGV.C02_symmetric
